@@ -64,61 +64,84 @@ Proof.
   intros a b H. destruct (str_eqb a b) eqn:E; [|easy]. apply str_eqb_eq in E. easy.
 Qed.
 
+(* ---- one iteration on a directly named option -------------------------- *)
+Lemma direct_step : forall opts ign o pre rest params f,
+  wf_occ opts o ->
+  parse_loop (S f) opts ign (pre ++ (oc_tok o :: oc_ps o) ++ rest) (length pre) params =
+  parse_loop f opts ign (pre ++ (oc_tok o :: oc_ps o) ++ rest)
+             (length pre + length (oc_tok o :: oc_ps o)) (params ++ [(oc_k o, oc_ps o)]).
+Proof.
+  intros opts ign [tok k ps] pre rest params f ((Hnd & Hres) & Hnp & Hsp).
+  cbn [oc_tok oc_k oc_ps] in *. cbn [app]. cbn [parse_loop].
+  destruct (length (pre ++ tok :: ps ++ rest) <=? length pre) eqn:Hl.
+  { rewrite app_length in Hl; cbn [length] in Hl; lia. }
+  rewrite get_middle. rewrite (str_eqb_false _ _ Hnd).
+  assert (Hk : take_params (np_of opts k) (pre ++ tok :: ps ++ rest) (S (length pre)) [] =
+               T_ok ps (length pre + length (tok :: ps))).
+  { rewrite <- Hnp.
+    replace (pre ++ tok :: ps ++ rest) with ((pre ++ [tok]) ++ ps ++ rest) by now rewrite <- app_assoc.
+    replace (S (length pre)) with (length (pre ++ [tok])) by (rewrite app_length; cbn; lia).
+    rewrite take_params_ok by easy. cbn [app length]. f_equal. rewrite app_length; cbn; lia. }
+  destruct Hres as [(name & -> & Hfind) | (name & -> & Hsd & Hfind)].
+  - rewrite Ascii.eqb_refl. cbn [negb starts_dashdash]. rewrite Ascii.eqb_refl. cbn [andb tl].
+    rewrite Hfind, Hk. easy.
+  - rewrite Ascii.eqb_refl. cbn [negb]. rewrite Hsd, Hfind, Hk. easy.
+Qed.
+
+(* a run of directly named options, whatever follows *)
+Lemma parse_prefix : forall opts ign os pre rest params fuel,
+  Forall (wf_occ opts) os ->
+  parse_loop (length os + fuel) opts ign (pre ++ render os ++ rest) (length pre) params =
+  parse_loop fuel opts ign (pre ++ render os ++ rest) (length pre + length (render os)) (params ++ reported os).
+Proof.
+  intros opts ign. induction os as [|o os IH]; intros pre rest params fuel Hwf.
+  - cbn [render flat_map length reported map app]. now rewrite Nat.add_0_r, app_nil_r.
+  - inv Hwf. cbn [render flat_map]. fold (render os). cbn [length Nat.add].
+    rewrite <- (app_assoc (oc_tok o :: oc_ps o)). rewrite direct_step by easy.
+    replace (pre ++ (oc_tok o :: oc_ps o) ++ render os ++ rest)
+      with ((pre ++ oc_tok o :: oc_ps o) ++ render os ++ rest) by now rewrite <- app_assoc.
+    rewrite <- app_length. rewrite IH by easy. f_equal.
+    + repeat (rewrite ?app_length; cbn [length]). lia.
+    + cbn [reported map]. now rewrite <- app_assoc.
+Qed.
+
+(* the iteration that meets the end of the options *)
+Lemma end_step : forall opts ign e pre params f,
+  wf_end e ->
+  parse_loop (S f) opts ign (pre ++ render_end e) (length pre) params =
+    mk_parsed (rc_of ign e) params (tail_of e) (pre ++ render_end e) false.
+Proof.
+  intros opts ign e pre params f He. cbn [parse_loop].
+  destruct e as [|r|u r]; cbn [render_end tail_of rc_of].
+  - rewrite app_nil_r. rewrite Nat.leb_refl. easy.
+  - destruct (length (pre ++ [dash; dash] :: r) <=? length pre) eqn:Hl.
+    { rewrite app_length in Hl; cbn [length] in Hl; lia. }
+    rewrite get_middle. rewrite str_eqb_refl. f_equal.
+    replace (S (length pre)) with (length (pre ++ [[dash; dash]])) by (rewrite app_length; cbn; lia).
+    replace (pre ++ [dash; dash] :: r) with ((pre ++ [[dash; dash]]) ++ r) by now rewrite <- app_assoc.
+    apply skipn_pre.
+  - destruct (length (pre ++ u :: r) <=? length pre) eqn:Hl.
+    { rewrite app_length in Hl; cbn [length] in Hl; lia. }
+    rewrite get_middle. cbn [wf_end] in He.
+    assert (Hne : str_eqb u [dash; dash] = false).
+    { apply str_eqb_false. intros ->. now elim He. }
+    rewrite Hne. rewrite skipn_pre.
+    destruct u as [|c0 rest]; [now destruct ign|].
+    destruct (Ascii.eqb c0 dash) eqn:Hc.
+    { apply Ascii.eqb_eq in Hc; subst c0. now elim He. }
+    cbn [negb]. now destruct ign.
+Qed.
+
 Lemma parse_loop_wf : forall opts ign e occs pre params fuel,
   Forall (wf_occ opts) occs -> wf_end e -> length occs < fuel ->
   parse_loop fuel opts ign (pre ++ render occs ++ render_end e) (length pre) params =
     mk_parsed (rc_of ign e) (params ++ reported occs) (tail_of e)
-              (pre ++ render occs ++ render_end e) false false.
+              (pre ++ render occs ++ render_end e) false.
 Proof.
-  intros opts ign e. induction occs as [|o occs IH]; intros pre params fuel Hwf He Hf.
-  - destruct fuel as [|f]; [cbn in Hf; lia|]. cbn [render flat_map app reported map]. rewrite app_nil_r.
-    cbn [parse_loop]. destruct e as [|r|u r]; cbn [render_end tail_of rc_of].
-    + rewrite app_nil_r. rewrite Nat.leb_refl. easy.
-    + destruct (length (pre ++ [dash; dash] :: r) <=? length pre) eqn:Hl.
-      { rewrite app_length in Hl; cbn [length] in Hl; lia. }
-      rewrite get_middle. rewrite str_eqb_refl. f_equal.
-      replace (S (length pre)) with (length (pre ++ [[dash; dash]])) by (rewrite app_length; cbn; lia).
-      replace (pre ++ [dash; dash] :: r) with ((pre ++ [[dash; dash]]) ++ r) by now rewrite <- app_assoc.
-      apply skipn_pre.
-    + destruct (length (pre ++ u :: r) <=? length pre) eqn:Hl.
-      { rewrite app_length in Hl; cbn [length] in Hl; lia. }
-      rewrite get_middle. cbn [wf_end] in He.
-      assert (Hne : str_eqb u [dash; dash] = false).
-      { apply str_eqb_false. intros ->. now elim He. }
-      rewrite Hne. rewrite skipn_pre.
-      destruct u as [|c0 rest]; [now destruct ign|].
-      destruct (Ascii.eqb c0 dash) eqn:Hc.
-      { apply Ascii.eqb_eq in Hc; subst c0. now elim He. }
-      cbn [negb]. now destruct ign.
-  - destruct fuel as [|f]; [cbn in Hf; lia|]. inv Hwf.
-    destruct H1 as ((Hnd & Hres) & Hnp & Hsp). destruct o as [tok k ps]; cbn [oc_tok oc_k oc_ps] in *.
-    cbn [render flat_map oc_tok oc_k oc_ps]. fold (render occs). cbn [app]. rewrite <- !app_assoc. cbn [app].
-    cbn [parse_loop].
-    destruct (length (pre ++ tok :: ps ++ render occs ++ render_end e) <=? length pre) eqn:Hl.
-    { rewrite app_length in Hl; cbn [length] in Hl; lia. }
-    rewrite get_middle. rewrite (str_eqb_false _ _ Hnd).
-    (* both forms lead to [known av k] *)
-    assert (Hk : forall av' : list (list ascii),
-      av' = pre ++ tok :: ps ++ render occs ++ render_end e ->
-      match take_params (np_of opts k) av' (S (length pre)) [] with
-      | T_ok ps0 i' => parse_loop f opts ign av' i' (params ++ [(k, ps0)])
-      | T_missing i' => mk_parsed RC_ERROR params (skipn i' av') av' false false
-      | T_double_free i' => mk_parsed RC_ERROR params (skipn i' av') av' false true
-      end =
-      mk_parsed (rc_of ign e) (params ++ reported (mk_occ tok k ps :: occs)) (tail_of e) av' false false).
-    { intros av' ->. rewrite <- Hnp.
-      replace (pre ++ tok :: ps ++ render occs ++ render_end e)
-        with ((pre ++ [tok]) ++ ps ++ render occs ++ render_end e) by now rewrite <- app_assoc.
-      replace (S (length pre)) with (length (pre ++ [tok])) by (rewrite app_length; cbn; lia).
-      rewrite take_params_ok by easy. cbn [app].
-      replace ((pre ++ [tok]) ++ ps ++ render occs ++ render_end e)
-        with (((pre ++ [tok]) ++ ps) ++ render occs ++ render_end e) by now rewrite <- !app_assoc.
-      rewrite <- app_length. rewrite IH by (cbn [length] in Hf; try easy; lia).
-      cbn [reported map oc_k oc_ps]. now rewrite <- app_assoc. }
-    destruct Hres as [(name & -> & Hfind) | (name & -> & Hsd & Hfind)].
-    + rewrite Ascii.eqb_refl. cbn [negb starts_dashdash]. rewrite Ascii.eqb_refl. cbn [andb tl].
-      rewrite Hfind. now apply Hk.
-    + rewrite Ascii.eqb_refl. cbn [negb]. rewrite Hsd. rewrite Hfind. now apply Hk.
+  intros opts ign e occs pre params fuel Hwf He Hf.
+  replace fuel with (length occs + S (fuel - length occs - 1)) by lia.
+  rewrite parse_prefix by easy.
+  rewrite <- app_length. rewrite (app_assoc pre). now rewrite end_step.
 Qed.
 
 Lemma render_length : forall occs, length occs <= length (render occs).
@@ -131,11 +154,234 @@ Qed.
 Theorem parse_wf : forall opts ign prog occs e,
   Forall (wf_occ opts) occs -> wf_end e ->
   cmd_parse opts ign (Some (prog :: render occs ++ render_end e)) =
-    mk_parsed (rc_of ign e) (reported occs) (tail_of e) (prog :: render occs ++ render_end e) false false.
+    mk_parsed (rc_of ign e) (reported occs) (tail_of e) (prog :: render occs ++ render_end e) false.
 Proof.
   intros opts ign prog occs e Hwf He. cbn [cmd_parse].
   apply (parse_loop_wf opts ign e occs [prog] []); try easy.
   unfold parse_fuel. cbn [length]. rewrite app_length. pose proof (render_length occs). lia.
+Qed.
+
+(* ------------------------------------------------------------------------ *)
+(* groups of short options: "-c1c2..cn" followed by the parameters of c1, then
+   those of c2, ... *)
+Record sopt := mk_sopt { so_c : ascii; so_k : nat; so_ps : list (list ascii) }.
+Definition wf_sopt (opts : list opt) (s : sopt) : Prop :=
+  so_c s <> dash /\
+  find_option opts [so_c s] = Some (so_k s) /\
+  length (so_ps s) = np_of opts (so_k s) /\
+  Forall (fun p => p <> special_empty_token) (so_ps s).
+Definition expand (g : list sopt) : list occ :=
+  map (fun s => mk_occ [dash; so_c s] (so_k s) (so_ps s)) g.
+Definition group_tok (g : list sopt) : list ascii := dash :: map so_c g.
+Definition group_params (g : list sopt) : list (list ascii) := flat_map so_ps g.
+(* the letters together must not be a declared name (the parser tries that first) *)
+Definition wf_group (opts : list opt) (g : list sopt) : Prop :=
+  g <> [] /\ Forall (wf_sopt opts) g /\ find_option opts (map so_c g) = None.
+
+Lemma expand_wf : forall opts g, Forall (wf_sopt opts) g -> Forall (wf_occ opts) (expand g).
+Proof.
+  intros opts g H. unfold expand. apply Forall_map. eapply Forall_impl; [|exact H].
+  intros [c k ps] (Hc & Hf & Hn & Hs); cbn [so_c so_k so_ps] in *.
+  split; [|split; easy]. cbn [oc_tok oc_k]. split.
+  - intro E. inv E. easy.
+  - right. exists [c]. split; [easy|]. split; [|easy].
+    cbn [starts_dashdash]. rewrite Ascii.eqb_refl. cbn [andb].
+    now apply Ascii.eqb_neq.
+Qed.
+
+Lemma shorts_params_ok : forall ps A B out,
+  shorts_params (length ps) (A ++ ps ++ B) (length A) out = (out ++ ps, length A + length ps).
+Proof.
+  induction ps as [|p ps IH]; intros A B out; cbn [length shorts_params].
+  - now rewrite app_nil_r, Nat.add_0_r.
+  - destruct (length A <? length (A ++ (p :: ps) ++ B)) eqn:Hl.
+    2:{ rewrite app_length in Hl; cbn [length app] in Hl; lia. }
+    cbn [app]. rewrite get_middle.
+    replace (A ++ p :: ps ++ B) with ((A ++ [p]) ++ ps ++ B) by now rewrite <- app_assoc.
+    replace (S (length A)) with (length (A ++ [p])) by (rewrite app_length; cbn; lia).
+    rewrite IH. rewrite <- app_assoc. cbn [app]. f_equal. rewrite app_length; cbn; lia.
+Qed.
+
+Lemma shorts_loop_ok : forall opts ign g A B out,
+  Forall (wf_sopt opts) g ->
+  shorts_loop opts (map so_c g) (A ++ group_params g ++ B) ign (length A) out =
+    Some (out ++ render (expand g), length A + length (group_params g)).
+Proof.
+  intros opts ign. induction g as [|s g IH]; intros A B out Hwf.
+  - cbn. now rewrite app_nil_r, Nat.add_0_r.
+  - inv Hwf. destruct H1 as (Hc & Hf & Hn & Hs).
+    cbn [map shorts_loop]. rewrite Hf. rewrite <- Hn.
+    cbn [group_params flat_map]. fold (group_params g). rewrite <- app_assoc.
+    rewrite shorts_params_ok.
+    replace (A ++ so_ps s ++ group_params g ++ B) with ((A ++ so_ps s) ++ group_params g ++ B)
+      by now rewrite <- app_assoc.
+    rewrite <- app_length. rewrite IH by easy.
+    cbn [expand map render flat_map oc_tok oc_ps]. fold (expand g). fold (render (expand g)).
+    f_equal. f_equal.
+    + rewrite <- !app_assoc. easy.
+    + rewrite !app_length. lia.
+Qed.
+
+(* the iteration that meets a group rewrites the vector and goes on exactly as
+   if the options had been written one by one *)
+Lemma group_step : forall opts ign g pre rest params f,
+  wf_group opts g ->
+  parse_loop (S f) opts ign (pre ++ (group_tok g :: group_params g) ++ rest) (length pre) params =
+  parse_loop (S f) opts ign (pre ++ render (expand g) ++ rest) (length pre) params.
+Proof.
+  intros opts ign g pre rest params f (Hne & Hwf & Hnone).
+  destruct g as [|s g]; [easy|]. clear Hne.
+  assert (Hs := Hwf). inv Hs. destruct H1 as (Hc & Hf & Hn & Hsp).
+  set (G := s :: g) in *.
+  (* right-hand side: the first expanded token is handled directly *)
+  assert (Er : render (expand G) = [dash; so_c s] :: so_ps s ++ render (expand g)) by reflexivity.
+  set (av' := pre ++ render (expand G) ++ rest).
+  assert (Hget' : get av' (length pre) = [dash; so_c s]).
+  { subst av'. rewrite Er. cbn [app]. apply get_middle. }
+  assert (Hlen' : (length av' <=? length pre) = false).
+  { subst av'. rewrite Er. rewrite app_length. cbn [app length]. apply Nat.leb_gt. lia. }
+  assert (Hcd : Ascii.eqb (so_c s) dash = false) by now apply Ascii.eqb_neq.
+  (* left-hand side *)
+  set (av := pre ++ (group_tok G :: group_params G) ++ rest).
+  assert (Hget : get av (length pre) = group_tok G) by (subst av; cbn [app]; apply get_middle).
+  assert (Hlen : (length av <=? length pre) = false).
+  { subst av. rewrite app_length. cbn [app length]. apply Nat.leb_gt. lia. }
+  assert (Hsk : skipn (S (length pre)) av = group_params G ++ rest).
+  { subst av. cbn [app].
+    replace (pre ++ group_tok G :: group_params G ++ rest)
+      with ((pre ++ [group_tok G]) ++ group_params G ++ rest) by now rewrite <- app_assoc.
+    replace (S (length pre)) with (length (pre ++ [group_tok G])) by (rewrite app_length; cbn; lia).
+    apply skipn_pre. }
+  assert (Hsplit : split_shorts opts (map so_c G) (skipn (S (length pre)) av) ign =
+                   Some (render (expand G), length (group_params G))).
+  { rewrite Hsk. unfold split_shorts. cbn [G map].
+    change (so_c s :: map so_c g) with (map so_c G).
+    apply (shorts_loop_ok opts ign G [] rest []). easy. }
+  assert (Hdel : argv_delete (Z.of_nat (length av)) (Some av) (Z.of_nat (length pre))
+                             (Z.of_nat (1 + length (group_params G))) =
+                 (RC_SUCCESS, (Z.of_nat (length av) - Z.of_nat (1 + length (group_params G)))%Z,
+                  Some (pre ++ rest))).
+  { rewrite delete_spec.
+    2:{ subst av. rewrite app_length. lia. }
+    2:{ lia. }
+    f_equal. f_equal. rewrite !Nat2Z.id. subst av.
+    rewrite firstn_app_len.
+    rewrite skipn_app_len. cbn [app Nat.add skipn].
+    rewrite <- (Nat.add_0_r (length (group_params G))), skipn_app_len. easy. }
+  assert (Hins : argv_insert (Some (pre ++ rest)) (Z.of_nat (length pre)) (Some (render (expand G))) =
+                 (RC_SUCCESS, Some av')).
+  { rewrite insert_spec by lia. rewrite Nat2Z.id. f_equal. f_equal. subst av'.
+    rewrite firstn_app_len. rewrite <- (Nat.add_0_r (length pre)), skipn_app_len. easy. }
+  cbn [parse_loop]. fold av. fold av'.
+  rewrite Hlen, Hlen', Hget, Hget'.
+  assert (E1 : str_eqb (group_tok G) [dash; dash] = false).
+  { cbn [group_tok G map str_eqb]. rewrite Ascii.eqb_refl, Hcd. easy. }
+  assert (E2 : str_eqb [dash; so_c s] [dash; dash] = false).
+  { cbn [str_eqb]. rewrite Ascii.eqb_refl, Hcd. easy. }
+  assert (E3 : starts_dashdash (group_tok G) = false).
+  { cbn [group_tok G map starts_dashdash]. rewrite Ascii.eqb_refl, Hcd. easy. }
+  assert (E4 : starts_dashdash [dash; so_c s] = false).
+  { cbn [starts_dashdash]. rewrite Ascii.eqb_refl, Hcd. easy. }
+  rewrite E1, E2. unfold group_tok at 1. rewrite Ascii.eqb_refl. cbn [negb].
+  fold (group_tok G). rewrite E3, E4.
+  rewrite Hnone, Hsplit, Hf.
+  replace (get (render (expand G)) 0) with [dash; so_c s] by (rewrite Er; reflexivity).
+  cbn [tl]. rewrite Hf. rewrite Hdel, Hins. cbn [snd vec_of]. easy.
+Qed.
+
+(* command lines mixing both ways of writing options *)
+Inductive item := I_direct (o : occ) | I_group (g : list sopt).
+Definition wf_item (opts : list opt) (it : item) : Prop :=
+  match it with I_direct o => wf_occ opts o | I_group g => wf_group opts g end.
+Definition render_item (it : item) : list (list ascii) :=
+  match it with I_direct o => oc_tok o :: oc_ps o | I_group g => group_tok g :: group_params g end.
+Definition render_items (its : list item) : list (list ascii) := flat_map render_item its.
+(* the options as the parser reports them: a group counts as its options one by one *)
+Definition flatten (its : list item) : list occ :=
+  flat_map (fun it => match it with I_direct o => [o] | I_group g => expand g end) its.
+Definition noptions (its : list item) : nat := length (flatten its).
+
+Lemma render_app : forall a b, render (a ++ b) = render a ++ render b.
+Proof. intros; unfold render. apply flat_map_app. Qed.
+
+Lemma parse_items_loop : forall opts ign e its pre params fuel,
+  Forall (wf_item opts) its -> wf_end e -> noptions its < fuel ->
+  parse_loop fuel opts ign (pre ++ render_items its ++ render_end e) (length pre) params =
+    mk_parsed (rc_of ign e) (params ++ reported (flatten its)) (tail_of e)
+              (pre ++ render (flatten its) ++ render_end e) false.
+Proof.
+  intros opts ign e. induction its as [|it its IH]; intros pre params fuel Hwf He Hf.
+  - cbn [render_items flatten flat_map render reported map app].
+    destruct fuel as [|f]; [cbn in Hf; lia|]. rewrite app_nil_r. now apply end_step.
+  - inv Hwf. unfold noptions in Hf. cbn [flatten flat_map] in Hf. fold (flatten its) in Hf.
+    rewrite app_length in Hf.
+    cbn [render_items flatten flat_map]. fold (render_items its). fold (flatten its).
+    rewrite render_app. unfold reported. rewrite map_app. fold (reported (flatten its)).
+    destruct it as [o|g]; cbn [wf_item render_item] in *.
+    + (* a directly named option *)
+      cbn [length] in Hf. destruct fuel as [|f]; [lia|].
+      rewrite <- (app_assoc (oc_tok o :: oc_ps o)). rewrite direct_step by easy.
+      replace (pre ++ (oc_tok o :: oc_ps o) ++ render_items its ++ render_end e)
+        with ((pre ++ oc_tok o :: oc_ps o) ++ render_items its ++ render_end e) by now rewrite <- app_assoc.
+      rewrite <- app_length. rewrite IH by (try easy; unfold noptions; lia).
+      cbn [render flat_map map]. rewrite app_nil_r. rewrite <- !app_assoc. easy.
+    + (* a group *)
+      destruct H1 as (Hne & Hg & Hnone).
+      assert (Hl : length (expand g) = length g) by (unfold expand; apply map_length).
+      destruct g as [|s g]; [easy|]. set (G := s :: g) in *.
+      destruct fuel as [|f]; [lia|].
+      rewrite <- (app_assoc (group_tok G :: group_params G)).
+      rewrite group_step by (split; [easy | split; easy]).
+      replace (S f) with (length (expand G) + (S f - length (expand G))) by (rewrite Hl in *; cbn [length] in *; lia).
+      rewrite parse_prefix by now apply expand_wf.
+      rewrite <- app_length.
+      rewrite (app_assoc pre (render (expand G))).
+      rewrite IH by (try easy; unfold noptions; lia).
+      rewrite <- !app_assoc. easy.
+Qed.
+
+Lemma noptions_le : forall opts its, Forall (wf_item opts) its ->
+  noptions its <= fold_right (fun t acc => length t + acc) 0 (render_items its).
+Proof.
+  intros opts. induction its as [|it its IH]; intro Hwf; [easy|]. inv Hwf. specialize (IH H2).
+  unfold noptions in *. cbn [flatten flat_map render_items]. fold (flatten its). fold (render_items its).
+  rewrite app_length.
+  assert (Hf : forall a b : list (list ascii),
+            fold_right (fun t acc => length t + acc) 0 (a ++ b) =
+            fold_right (fun t acc => length t + acc) 0 a + fold_right (fun t acc => length t + acc) 0 b).
+  { induction a as [|x a IHa]; intro b; cbn [app fold_right]; [easy|]. rewrite IHa. lia. }
+  rewrite Hf. destruct it as [o|g]; cbn [render_item length fold_right wf_item] in *.
+  - destruct H1 as ((_ & Hres) & _).
+    destruct Hres as [(name & -> & _) | (name & -> & _)]; cbn [length]; lia.
+  - unfold expand, group_tok. rewrite map_length. cbn [length]. rewrite map_length. lia.
+Qed.
+Lemma fuel_enough : forall opts av,
+  fold_right (fun t acc => length t + acc) 0 av < parse_fuel opts av.
+Proof.
+  intros opts av. unfold parse_fuel.
+  set (m := fold_right (fun o m => Nat.max (o_np o) m) 0 opts).
+  assert (H : fold_right (fun t acc => length t + acc) 0 av <=
+              fold_right (fun t acc => length t * (1 + m) + acc) 0 av).
+  { induction av as [|t av IH]; cbn [fold_right]; [lia|]. nia. }
+  lia.
+Qed.
+
+(* the general statement: options written directly or in groups *)
+Theorem parse_items_wf : forall opts ign prog its e,
+  Forall (wf_item opts) its -> wf_end e ->
+  cmd_parse opts ign (Some (prog :: render_items its ++ render_end e)) =
+    mk_parsed (rc_of ign e) (reported (flatten its)) (tail_of e)
+              (prog :: render (flatten its) ++ render_end e) false.
+Proof.
+  intros opts ign prog its e Hwf He. cbn [cmd_parse].
+  apply (parse_items_loop opts ign e its [prog] []); try easy.
+  pose proof (noptions_le opts its Hwf) as H1.
+  pose proof (fuel_enough opts (prog :: render_items its ++ render_end e)) as H2.
+  cbn [fold_right] in H2.
+  assert (H3 : fold_right (fun t acc => length t + acc) 0 (render_items its) <=
+               fold_right (fun t acc => length t + acc) 0 (render_items its ++ render_end e)).
+  { generalize (render_items its) as a. induction a as [|x a IHa]; cbn [app fold_right]; lia. }
+  lia.
 Qed.
 
 (* the queries on such a result *)
@@ -178,12 +424,15 @@ Proof.
 Qed.
 
 (* ------------------------------------------------------------------------ *)
-(* the error path that frees param->clp_argv twice is reachable *)
-Definition df_opts : list opt :=
-  [mk_opt "a"%char None (Some ["a"; "l"; "p"; "h"; "a"]%char) 2; mk_opt "b"%char None None 0].
-Definition df_argv : list (list ascii) := [["p"]; ["-"; "a"; "b"]; ["x"]]%char.
-Lemma double_free_reachable : p_ub (cmd_parse df_opts false (Some df_argv)) = true.
-Proof. vm_compute. reflexivity. Qed.
+(* a missing parameter is an error return, with the rest of the line in the tail *)
+Lemma take_params_missing : forall np av i acc j,
+  take_params np av i acc = T_missing j -> i <= j.
+Proof.
+  induction np as [|np IH]; intros av i acc j H; cbn [take_params] in H; [easy|].
+  destruct (length av <=? i); [inv H; lia|].
+  destruct (str_eqb (get av i) special_empty_token); [inv H; lia|].
+  apply IH in H. lia.
+Qed.
 
 (* ------------------------------------------------------------------------ *)
 (* the statements of Properties_C39.v *)
@@ -205,29 +454,31 @@ Proof.
   - now apply queries_wf.
   - split; [now apply (queries_unknown opts p name 0 0) | intros; now apply queries_unknown].
 Qed.
-Lemma P_double_free_refuted : exists opts ign av, p_ub (cmd_parse opts ign (Some av)) = true.
-Proof. exists df_opts, false, df_argv. exact double_free_reachable. Qed.
-
 Local Open Scope char_scope.
 Lemma P_example :
   argv_split [","; "a"; ","; ","; "b"; ","] "," = Some [["a"]; ["b"]] /\
-  argv_split_with_empty ["a"; ","; "b"; ","; ","] "," = Some [["a"]; ["b"]; []] /\
+  argv_split_with_empty ["a"; ","; "b"; ","; ","] "," = Some [["a"]; ["b"]; []; []] /\
   argv_join (Some [["a"]; []; ["b"]]) "," = ["a"; ","; ","; "b"] /\
   argv_insert (Some [["a"]; ["b"]; ["c"]]) 1 (Some [["x"]; ["y"]]) =
     (RC_SUCCESS, Some [["a"]; ["x"]; ["y"]; ["b"]; ["c"]]) /\
   argv_delete 5 (Some [["a"]; ["x"]; ["y"]; ["b"]; ["c"]]) 1 2 = (RC_SUCCESS, 3%Z, Some [["a"]; ["b"]; ["c"]]) /\
+  (* p --beta -ba 1 2 -- t : one option written directly, then a group of two *)
   let opts := [mk_opt "a" None (Some ["a"; "l"]) 2; mk_opt "b" None (Some ["b"; "e"; "t"; "a"]) 0] in
-  let occs := [mk_occ ["-"; "a"] 0 [["1"]; ["2"]]; mk_occ ["-"; "-"; "b"; "e"; "t"; "a"] 1 []] in
-  Forall (wf_occ opts) occs /\ wf_end (E_dashdash [["t"]]) /\
-  p_params (cmd_parse opts false (Some (["p"] :: render occs ++ render_end (E_dashdash [["t"]])))) =
-    [(0, [["1"]; ["2"]]); (1, [])].
+  let its := [I_direct (mk_occ ["-"; "-"; "b"; "e"; "t"; "a"] 1 []);
+              I_group [mk_sopt "b" 1 []; mk_sopt "a" 0 [["1"]; ["2"]]]] in
+  Forall (wf_item opts) its /\ wf_end (E_dashdash [["t"]]) /\
+  render_items its = [["-"; "-"; "b"; "e"; "t"; "a"]; ["-"; "b"; "a"]; ["1"]; ["2"]] /\
+  p_params (cmd_parse opts false (Some (["p"] :: render_items its ++ render_end (E_dashdash [["t"]])))) =
+    [(1, []); (1, []); (0, [["1"]; ["2"]])].
 Proof.
   do 5 (split; [vm_compute; reflexivity|]).
-  intros opts occs. split; [|split; [exact I | vm_compute; reflexivity]].
+  intros opts its. split; [|split; [exact I | split; vm_compute; reflexivity]].
   constructor; [|constructor; [|constructor]].
-  - split; [|split; [reflexivity|]].
-    + split; [discriminate|]. right. exists ["a"]. repeat split.
-    + repeat constructor; discriminate.
   - split; [|split; [reflexivity | constructor]].
     split; [discriminate|]. left. exists ["b"; "e"; "t"; "a"]. repeat split.
+  - split; [discriminate|]. split; [|reflexivity].
+    constructor; [|constructor; [|constructor]].
+    + split; [discriminate|]. split; [reflexivity|]. split; [reflexivity | constructor].
+    + split; [discriminate|]. split; [reflexivity|]. split; [reflexivity|].
+      repeat constructor; discriminate.
 Qed.
